@@ -51,6 +51,12 @@ def registry():
         spmgr_py.register(_REG, PROPERTIES)
         spmgr_py.register2(_REG, PROPERTIES)
         spmgr_py.register3(_REG, PROPERTIES)
+        from . import chainmap_py
+        chainmap_py.register(_REG, PROPERTIES)
+        from . import lazy_py
+        lazy_py.register(_REG, PROPERTIES)
+        from . import inherit_py
+        inherit_py.register(_REG, PROPERTIES)
         from . import serialize_py
         serialize_py.register(_REG, PROPERTIES)
         from . import registry_py
